@@ -951,3 +951,178 @@ Proof.
   apply run_root_correct; assumption.
 Qed.
 End T4.
+
+(* ------------------------------------------------------------------ *)
+(* (T5) the interpreter itself (exec_program over the `temps` dictionary) on the
+   program extract_contractions emits for the default depth-first order returns
+   exactly run_root_x.                                                        *)
+Lemma list_eqb_nat_refl k : list_eqb Nat.eqb k k = true.
+Proof. induction k as [|x k IH]; cbn [list_eqb]; [reflexivity|]. rewrite Nat.eqb_refl. exact IH. Qed.
+Lemma list_eqb_nat_neq k k' : k <> k' -> list_eqb Nat.eqb k k' = false.
+Proof.
+  intros H. destruct (list_eqb Nat.eqb k k') eqn:E; [|reflexivity]. apply list_eqb_nat_eq in E. contradiction.
+Qed.
+
+Lemma tget_tdel_other k k' (tm : temps) : k' <> k -> tget k' (tdel k tm) = tget k' tm.
+Proof.
+  intros H. induction tm as [|[k0 v] tm IH]; cbn [tdel tget]; [reflexivity|].
+  destruct (list_eqb Nat.eqb k0 k) eqn:E.
+  - apply list_eqb_nat_eq in E. subst k0. rewrite (list_eqb_nat_neq k k') by congruence. reflexivity.
+  - cbn [tget]. rewrite IH. reflexivity.
+Qed.
+Lemma tget_tset_same k v (tm : temps) : tget k (tset k v tm) = v.
+Proof. unfold tset. cbn [tget]. rewrite list_eqb_nat_refl. reflexivity. Qed.
+Lemma tget_tset_other k k' v (tm : temps) : k' <> k -> tget k' (tset k v tm) = tget k' tm.
+Proof.
+  intros H. unfold tset. cbn [tget]. rewrite (list_eqb_nat_neq k k') by congruence.
+  apply tget_tdel_other, H.
+Qed.
+
+Lemma leaves_nonempty t : exists x, In x (leaves t).
+Proof.
+  induction t as [k|l [x Hx] r _]; cbn [leaves]; [exists k; left; reflexivity|].
+  exists x. apply in_app_iff. left; exact Hx.
+Qed.
+
+Section T5.
+Variable n : net.
+Variable sl : list slinfo.
+Variable arr : nat -> ptensor.
+Variable e0 : env.
+Variable pe : bool.
+Notation dim := (dim n).
+Notation exec := (exec_instr n e0).
+Notation run_sub_x := (run_sub_x n sl arr e0 pe).
+Notation leaf_sarr := (leaf_sarr n sl arr e0).
+
+Definition outside (K s : list nat) : Prop := exists x, In x K /\ ~ In x s.
+
+(* state after executing the instructions of all internal nodes of s (children first) *)
+Definition sub_done (s : tree) : Prop := forall tm : temps,
+  (forall k, In k (leaves s) -> tget [k] tm = leaf_sarr k) ->
+  let tm' := fold_left exec (flat_map (node_instr n sl pe) (map (pair false) (post_sub s))) tm in
+  tget (leaves s) tm' = run_sub_x s /\
+  forall K, outside K (leaves s) -> tget K tm' = tget K tm.
+
+Lemma children_then_node isroot l r : sub_done l -> sub_done r -> NoDup (leaves l ++ leaves r) ->
+  forall tm : temps, (forall k, In k (leaves l ++ leaves r) -> tget [k] tm = leaf_sarr k) ->
+  let tm' := fold_left exec
+               (flat_map (node_instr n sl pe) (map (pair false) (post_sub l ++ post_sub r) ++ [(isroot, Node l r)])) tm in
+  tget (leaves l ++ leaves r) tm' = node_exec n sl e0 pe isroot l r (run_sub_x l) (run_sub_x r) /\
+  forall K, outside K (leaves l ++ leaves r) -> tget K tm' = tget K tm.
+Proof.
+  intros Pl Pr ND tm Hleaf.
+  rewrite map_app, !flat_map_app, !fold_left_app. cbn [flat_map]. rewrite app_nil_r.
+  set (tm1 := fold_left exec (flat_map (node_instr n sl pe) (map (pair false) (post_sub l))) tm).
+  set (tm2 := fold_left exec (flat_map (node_instr n sl pe) (map (pair false) (post_sub r))) tm1).
+  destruct (Pl tm) as [Vl Fl].
+  { intros k Hk. apply Hleaf, in_app_iff. left; exact Hk. }
+  fold tm1 in Vl, Fl.
+  destruct (Pr tm1) as [Vr Fr].
+  { intros k Hk. rewrite Fl.
+    - apply Hleaf, in_app_iff. right; exact Hk.
+    - exists k. split; [left; reflexivity|]. intros Hin. apply (NoDup_app_disj _ _ k ND Hin Hk). }
+  fold tm2 in Vr, Fr.
+  assert (Vl2 : tget (leaves l) tm2 = run_sub_x l).
+  { rewrite Fr; [exact Vl|]. destruct (leaves_nonempty l) as [x Hx]. exists x. split; [exact Hx|].
+    intros Hin. apply (NoDup_app_disj _ _ x ND Hx Hin). }
+  rewrite node_instr_exec. cbn [leaves]. split.
+  - rewrite tget_tset_same, Vl2, Vr. reflexivity.
+  - intros K [x [HxK Hx]]. rewrite in_app_iff in Hx.
+    assert (N1 : K <> leaves l ++ leaves r) by (intros ->; apply Hx, in_app_iff, HxK).
+    assert (N2 : K <> leaves l) by (intros ->; tauto).
+    assert (N3 : K <> leaves r) by (intros ->; tauto).
+    rewrite tget_tset_other, !tget_tdel_other by assumption.
+    rewrite Fr by (exists x; tauto). apply Fl. exists x; tauto.
+Qed.
+
+Lemma sub_done_all s : NoDup (leaves s) -> sub_done s.
+Proof.
+  induction s as [k|l IHl r IHr]; intros ND.
+  - intros tm Hleaf. cbn [post_sub map flat_map fold_left leaves]. split; [|intros; reflexivity].
+    apply Hleaf. left; reflexivity.
+  - cbn [leaves] in ND. destruct (NoDup_app_elim _ _ ND) as [NDl NDr].
+    intros tm Hleaf. cbn [post_sub run_sub_x TdotFacts.run_sub_x leaves].
+    replace (map (pair false) (post_sub l ++ post_sub r ++ [Node l r]))
+      with (map (pair false) (post_sub l ++ post_sub r) ++ [(false, Node l r)])
+      by (rewrite (app_assoc (post_sub l) (post_sub r) [Node l r]),
+                  (map_app (pair false) (post_sub l ++ post_sub r) [Node l r]); reflexivity).
+    apply (children_then_node false l r (IHl NDl) (IHr NDr) ND tm Hleaf).
+Qed.
+
+(* ---- the pre-processing instructions ---- *)
+Definition pre_of (k : nat) (A : sarr) : sarr :=
+  match leaf_preproc n sl k with
+  | Some (term, kept) => (map dim kept, einsum1 n e0 term kept (snd A))
+  | None => A
+  end.
+Definition pre_of_leaf (k : nat) : list instr :=
+  match leaf_preproc n sl k with
+  | Some (term, kept) => [IPre k term kept]
+  | None => []
+  end.
+
+Lemma singleton_neq (a b : nat) : a <> b -> [a] <> [b].
+Proof. intros H E. injection E. exact H. Qed.
+
+Lemma exec_pre ks : NoDup ks -> forall tm : temps,
+  let tm' := fold_left exec (flat_map pre_of_leaf ks) tm in
+  (forall k, In k ks -> tget [k] tm' = pre_of k (tget [k] tm)) /\
+  (forall K, (forall k, In k ks -> K <> [k]) -> tget K tm' = tget K tm).
+Proof.
+  induction 1 as [|k ks Hn ND IH]; intros tm; cbn [flat_map].
+  - cbn [fold_left]. split; [intros k []|intros; reflexivity].
+  - rewrite fold_left_app.
+    set (tm1 := fold_left exec (pre_of_leaf k) tm).
+    assert (S1 : tget [k] tm1 = pre_of k (tget [k] tm)).
+    { unfold tm1, pre_of_leaf, pre_of. destruct (leaf_preproc n sl k) as [[term kept]|]; cbn [fold_left exec_instr]; [|reflexivity].
+      apply tget_tset_same. }
+    assert (F1 : forall K, K <> [k] -> tget K tm1 = tget K tm).
+    { intros K HK. unfold tm1, pre_of_leaf. destruct (leaf_preproc n sl k) as [[term kept]|]; cbn [fold_left exec_instr]; [|reflexivity].
+      apply tget_tset_other, HK. }
+    destruct (IH tm1) as [V F]. split.
+    + intros k' [<-|Hk'].
+      * rewrite F; [exact S1|]. intros k' Hk'. apply singleton_neq. intros ->. contradiction.
+      * rewrite (V k' Hk'). rewrite F1; [reflexivity|]. apply singleton_neq. intros ->. contradiction.
+    + intros K HK. rewrite F by (intros k' Hk'; apply HK; right; exact Hk').
+      apply F1, HK. left; reflexivity.
+Qed.
+
+Lemma tget_init ks k : In k ks ->
+  tget [k] (map (fun k => ([k], (map dim (term_sl n sl k), sliced_arr n sl arr e0 k))) ks)
+  = (map dim (term_sl n sl k), sliced_arr n sl arr e0 k).
+Proof.
+  induction ks as [|k0 ks IH]; [intros []|]. intros H. cbn [map tget list_eqb].
+  destruct (Nat.eqb_spec k0 k) as [->|Hne]; [reflexivity|]. cbn [andb].
+  apply IH. destruct H as [H|H]; [congruence|exact H].
+Qed.
+
+Theorem exec_program_dfs l r : NoDup (leaves l ++ leaves r) ->
+  exec_program n sl arr e0 (program n sl pe (Node l r) (traverse_dfs (Node l r))) (Node l r)
+  = run_root_x n sl arr e0 pe (Node l r).
+Proof.
+  intros ND. unfold exec_program, program, pre_instrs. rewrite fold_left_app.
+  change (flat_map _ (leaves (Node l r))) with (flat_map pre_of_leaf (leaves (Node l r))).
+  cbn [leaves] in *.
+  destruct (exec_pre _ ND (init_temps n sl arr e0 (Node l r))) as [V _].
+  set (tm0 := fold_left exec (flat_map pre_of_leaf (leaves l ++ leaves r)) (init_temps n sl arr e0 (Node l r))) in *.
+  assert (Hleaf : forall k, In k (leaves l ++ leaves r) -> tget [k] tm0 = leaf_sarr k).
+  { intros k Hk. rewrite (V k Hk). unfold init_temps. cbn [leaves]. rewrite (tget_init _ k Hk).
+    unfold pre_of, TdotFacts.leaf_sarr. destruct (leaf_preproc n sl k) as [[term kept]|]; reflexivity. }
+  destruct (NoDup_app_elim _ _ ND) as [NDl NDr].
+  cbn [traverse_dfs].
+  destruct (children_then_node true l r (sub_done_all l NDl) (sub_done_all r NDr) ND tm0 Hleaf) as [Hv _].
+  exact Hv.
+Qed.
+
+(* hence: the interpreter's result for the default order, any prefer_einsum *)
+Theorem exec_program_dfs_correct l r : wf_net n -> full_tree n (Node l r) ->
+  let res := exec_program n sl arr e0 (program n sl pe (Node l r) (traverse_dfs (Node l r))) (Node l r) in
+  fst res = map dim (out_inds n sl) /\
+  forall e, agree_removed sl e0 e -> snd res (map e (out_inds n sl)) = einsum_spec n sl arr e.
+Proof.
+  intros WF HF res. pose proof (full_tree_inrange n _ HF) as HR. cbn [leaves] in HR.
+  unfold res. rewrite (exec_program_dfs l r (proj1 HR)).
+  apply run_root_x_correct; assumption.
+Qed.
+End T5.
